@@ -80,6 +80,26 @@ def search(S):
         out = pos(float(rng.uniform(5, 30)), rng.normal(size=3), rng.normal(size=3), rng.normal(size=3), L.quat_of(*L.rand_rot(rng)), rng.normal(size=3), rng.normal(size=3), zi, 0.01)
         z2 = float(np.array(out[2]).flatten()[0])
         S.check("rdd2.position_control", "z_integrator_limit", {"z_i": zi}, abs(z2) <= rdd2.z_integral_max + 1e-12, rdd2.z_integral_max, z2, "height integrator outside its limit")
+    # position loop: the term built from position/velocity error and acceleration set-point (the code's p_term) never exceeds
+    # 30 % of weight.  Recovered from the outputs: T = nT * zB(q_r),  term = T - (thrust_trim + ki_z z_i) e3.
+    lim = 0.3 * rdd2.m * rdd2.g
+    for k in range(N * 10):
+        trim = float(rng.uniform(5, 30))
+        scale_e = float(rng.choice([0.1, 1.0, 10.0]))
+        scale_a = float(rng.choice([0.0, 1.0, 5.0, 15.0]))
+        pt, vt, at = rng.normal(size=3), rng.normal(size=3), rng.normal(size=3) * scale_a
+        p, v = pt + rng.normal(size=3) * scale_e, vt + rng.normal(size=3) * scale_e
+        zi = float(rng.uniform(-1, 1) * rdd2.z_integral_max)
+        qc = L.quat_of(*L.rand_rot(rng))
+        out = pos(trim, pt, vt, at, qc, p, v, zi, 0.01)
+        nT = float(np.array(out[0]).flatten()[0]); qr = np.array(out[1]).flatten()
+        if nT <= 1e-2 or abs(np.linalg.norm(qr) - 1) > 1e-9:      # thrust-axis fallback / degenerate heading (C14's territory)
+            continue
+        zB = L.f(SO3Quat.elem(ca.DM(qr)).to_Matrix())[:, 2]
+        term = nT * zB - (trim + rdd2.ki_z * zi) * np.array([0, 0, 1.0])
+        inp = {"thrust_trim": trim, "pt_w": pt.tolist(), "vt_w": vt.tolist(), "at_w": at.tolist(), "qc_wb": qc.tolist(), "p_w": p.tolist(), "v_w": v.tolist(), "z_i": zi, "dt": 0.01}
+        S.check("rdd2.position_control", "feedback_term_limit", inp, float(np.linalg.norm(term)) <= lim * (1 + 1e-7) + 1e-9, "<= %g" % lim, float(np.linalg.norm(term)),
+                "position-loop term exceeds 30 % of weight")
 
 
-H.run(search, "fed-back runs of 200 rate-loop steps and 800 velocity-input steps (yaw stick held so the set-point crosses +-pi, random resets), random gains/limits/sticks; attitude errors up to pi-0.01 with both quaternion signs; distinct = distinct (unit, input) among the sampled steps")
+H.run(search, "fed-back runs of 200 rate-loop steps and 800 velocity-input steps (yaw stick held so the set-point crosses +-pi, random resets), random gains/limits/sticks; attitude errors up to pi-0.01 with both quaternion signs; position loop with errors from 0.1 to 10 m and acceleration set-points from 0 to 15 m/s^2 (30 % bound on the recovered term); distinct = distinct (unit, input) among the sampled steps")
